@@ -54,4 +54,45 @@ contract(UTIL, 'slice_to_ascending_slice',
         f'forall(lambda i, k: implies(nth(key, size, k, i), nth(result, size, cond({_POS}, k, cond(key.step == -1, i - s_start(result, size), {_QQ} - k)), i)))',
         # ... and vice versa: result addresses nothing else
         f'forall(lambda i, k: implies(nth(result, size, k, i), nth(key, size, cond({_POS}, k, cond(key.step == -1, s_start(key, size) - i, {_QQ} - k)), i)))',
+    ],
+    # same statement without the proof witnesses, for run-time evaluation (replay / bounded stand-in)
+    ensures_concrete=[
+        'result.step is None or result.step > 0',
+        'R(result, size) == sorted(set(R(key, size)))',
     ])
+
+_D = 'cond(len(bundle) >= 2, at(bundle, 1) - at(bundle, 0), 1)'
+contract(TB, 'TypeBlocks._indices_to_contiguous_pairs',
+    props=['C03', 'C04'],
+    params=dict(indices='list[tuple[int,int]]'), order=['indices'],
+    is_generator=True, yield_sort='tuple[int,slice]',
+    ghost_params=dict(W='int'),
+    requires=[
+        # (block, column) pairs, each column valid for a block of width <= W, pairwise distinct
+        'forall_in(0, len(indices), lambda j: 0 <= at(indices, j)[1] and at(indices, j)[1] < W)',
+        'forall(lambda a, b: implies(0 <= a and a < b and b < len(indices), not (at(indices, a)[0] == at(indices, b)[0] and at(indices, a)[1] == at(indices, b)[1])))',
+    ],
+    ghost_init=['cut = 0'],
+    n_loops=1,
+    loops={0: dict(index='t', locals=dict(last='opt[tuple[int,int]]', bundle='list[int]', cut='int'),
+        ghost_mods=['cut'],
+        invariant=[
+            '0 <= cut and cut <= t',
+            'is_none(last) == (t == 0)',
+            'implies(t == 0, cut == 0)',
+            'implies(t > 0, last == at(indices, t - 1))',
+            'implies(t > 0, len(bundle) == t - cut and len(bundle) >= 1)',
+            'implies(t > 0, forall_in(0, len(bundle), lambda j: at(bundle, j) == at(indices, cut + j)[1] and at(indices, cut + j)[0] == at(indices, t - 1)[0]))',
+            f'implies(t > 0, ({_D} == 1 or {_D} == -1) and forall_in(0, len(bundle), lambda j: at(bundle, j) == at(bundle, 0) + j * {_D}))',
+        ])},
+    call_ghosts={'TypeBlocks._cols_to_slice': dict(d=_D, W='W')},
+    # the yielded (block, slice) segments tile the key positions in order; segment expands to its sub-sequence
+    at_yield=[
+        'cut + len(bundle) <= len(indices)',
+        'forall_in(0, len(bundle), lambda j: at(indices, cut + j)[0] == result[0] and nth(result[1], W, j, at(indices, cut + j)[1]))',
+        'not nth(result[1], W, len(bundle), s_start(result[1], W) + len(bundle) * s_step(result[1]))',
+    ],
+    yield_update=['cut = cut + len(bundle)'],
+    at_exit=['cut == len(indices)'],
+    # callers see: the concatenated expansions of the yielded segments reproduce `indices`
+    ensures=[])
